@@ -2,7 +2,15 @@
 // For one generated configuration ALL ordered detector pairs x ring pairs x unmashed TOF indices
 // are enumerated (strided for the largest predefined scanners) and compared, by pure set
 // reasoning, with what the bins report.
+//
+// Object histories (c12_history.h, shared with C12): the property's anchors name the lazily built tables
+// (uncompressed_view_tangpos_to_det1det2, det1det2_to_uncompressed_view_tangpos, the Michelogram tables) as state.  In about half of
+// the generated configurations, every other enumerated one and part of the fixed ones the object under test is therefore DERIVED
+// from another, already used object (clone / SSRB(ProjDataInfo&,...) / public setters); all clauses run on the derived object, and
+// it must equal (operator==) the fresh twin constructed directly with the final parameters and map every detector pair and ring
+// pair as the twin does.
 #include "stir_gen.h"
+#include "c12_history.h"
 #include "stir/ProjDataInfoCylindricalNoArcCorr.h"
 #include "stir/ProjDataInfoGenericNoArcCorr.h"
 #include "stir/ProjDataInfoBlocksOnCylindricalNoArcCorr.h"
@@ -132,7 +140,13 @@ check_config(const PDI& p, const json& c)
                 VF_CHECK(covered && kv.first == std::make_pair(s, a), "ring pair (", r1, ",", r2, ") listed under seg ", kv.first.first, " ax ",
                          kv.first.second, " but assigned to seg ", s, " ax ", a);
               }
-          if (covered && a >= p.get_min_axial_pos_num(s) && a <= p.get_max_axial_pos_num(s))
+          // The axial ranges of the configurations of this property are never reduced (the quantifier has reduced segment and
+          // tangential ranges only; get_segment_axial_pos_num_for_ring_pair documents an axial position "outside the actual range"
+          // for reduced ranges): every covered ring pair must lie in an (in-range) axial position of its segment.
+          if (covered)
+            VF_CHECK(a >= p.get_min_axial_pos_num(s) && a <= p.get_max_axial_pos_num(s), "covered ring pair (", r1, ",", r2, ") is assigned to seg ", s, " ax ", a,
+                     ", outside the axial range ", p.get_min_axial_pos_num(s), "..", p.get_max_axial_pos_num(s), " of that segment, which was never reduced");
+          if (covered)
             VF_CHECK(count == 1, "covered ring pair (", r1, ",", r2, ") is listed ", count, " times (assigned to seg ", s, " ax ", a, ")");
           else
             VF_CHECK(count == 0, "ring pair (", r1, ",", r2, ") not assigned to an in-range (seg,ax) but listed ", count, " times");
@@ -314,6 +328,33 @@ check(const json& c)
     {
       return Result::reject(std::string("construction rejected: ") + e.what());
     }
+  if (!dynamic_cast<const ProjDataInfoCylindricalNoArcCorr*>(pdi.get()) && !dynamic_cast<const ProjDataInfoGenericNoArcCorr*>(pdi.get()))
+    return Result::reject("not a no-arc-correction geometry");
+  // ---- object history: the object under test is derived from another, used object; pdi (constructed directly) is its fresh twin ----
+  if (c.contains("hist") && c["hist"].is_object())
+    {
+      const json& h = c["hist"];
+      shared_ptr<ProjDataInfo> fresh = pdi, derived;
+      const Result rd = vh::derive(derived, sc, h, c["pdi"]["trim"], json());
+      if (rd.failed())
+        return rd;
+      vh::count_history_classes(h);
+      vh::DiffOpts o;
+      o.ring_stride = c.value("ring_stride", 1);
+      o.det_stride = c.value("det_stride", 1);
+      o.all_pairs = true;
+      o.coords = false;
+      // the lists of detector pairs per bin are compared with the twin's on a strided set of bins for the large scanners (the
+      // clauses of the property itself always visit all bins of the derived object)
+      o.view_stride = sc->get_num_detectors_per_ring() > 128 ? 5 : 1;
+      o.ax_stride = sc->get_num_rings() > 16 ? 3 : 1;
+      const Result rt = vh::diff_twin(*derived, *fresh, o);
+      if (rt.failed())
+        return rt;
+      pdi = derived;
+    }
+  else
+    stats().cls("history: none (fresh object)");
   if (auto p = dynamic_cast<const ProjDataInfoCylindricalNoArcCorr*>(pdi.get()))
     {
       stats().cls("cylindrical");
@@ -345,6 +386,19 @@ gen(Src& s, int size)
   po.allow_clamped_seg0 = true;
   c["pdi"] = vg::gen_pdi(s, *sc, po);
   c["pdi"]["arccorr"] = false;
+  // known finding C01-H1 (c12_history.h): blocks/generic data with span > 1 lose ring pairs as soon as a setter makes the
+  // Michelogram tables be rebuilt; the segment reduction of the trim (vg::make_pdi: reduce_segment_range) is such a setter
+  if (!vh::exclusions_off() && sc->get_scanner_geometry() != "Cylindrical" && c["pdi"]["span"].get<int>() > 1 && c["pdi"]["trim"].contains("max_seg"))
+    {
+      c["pdi"]["trim"] = json::object();
+      vh::count_excluded_H1();
+    }
+  if (s.chance(1, 2))
+    { // object history (c12_history.h)
+      const json h = vh::gen_history(s, sc, c["pdi"]);
+      if (!h.is_null())
+        c["hist"] = h;
+    }
   return c;
 }
 
@@ -410,7 +464,21 @@ fixed_cases(int tier)
                        { "tof_mash", tofmash },
                        { "trim", json::object() } };
           c["ring_stride"] = ring_stride;
-          v.push_back(c);
+          if (&cf == &cfgs[1] || (tier == 1 && &cf != &cfgs[0]))
+            { // the compressed samplings are reached through an object history (deterministic per scanner); thorough: both ways
+              PrngSrc ph(uint64_t(t) * 977 + uint64_t(&cf - &cfgs[0]) * 31 + 5);
+              const json h = vh::gen_history(ph, sc, c["pdi"]);
+              if (tier == 1 || h.is_null())
+                v.push_back(c);
+              if (!h.is_null())
+                {
+                  json ch = c;
+                  ch["hist"] = h;
+                  v.push_back(ch);
+                }
+            }
+          else
+            v.push_back(c);
           if (&cf == &cfgs[0] && rings > 2)
             { // the same data with an asymmetric segment range (more negative than positive segments, and vice versa)
               json c2 = c;
@@ -468,6 +536,26 @@ enumerate(uint64_t idx, int tier, json& c)
                { "arccorr", false },
                { "tof_mash", sc["tof_poss"].get<int>() > 0 ? (idx % 2 ? 1 : 5) : 0 },
                { "trim", json::object() } };
+  // every other block of 16 enumerated configurations (blocks, so that the shards of the driver stay balanced) is reached through an
+  // object history: the unmashed object is used (all lazy tables built), then view-mashed by SSRB(ProjDataInfo&, 1, mash)
+  // (idx%4==1 or 2) or cloned and mashed with set_num_views (idx%4==3 or 0); without mashing it is a clone of a used object
+  if ((idx / 16) % 2 == 1)
+    {
+      json src = c["pdi"];
+      src["views"] = ndet / 2;
+      json ops = json::array();
+      ops.push_back({ { "op", "use" }, { "mask", 31 } });
+      if (mash == 1)
+        ops.push_back({ { "op", "clone" } });
+      else if (idx % 4 == 1 || idx % 4 == 2)
+        ops.push_back({ { "op", "ssrb" }, { "nseg", 1 }, { "nviews", mash }, { "trim", 0 }, { "max_in_seg", -1 }, { "ntof", 1 } });
+      else
+        {
+          ops.push_back({ { "op", "shared_clone" } });
+          ops.push_back({ { "op", "set_num_views" }, { "views", ndet / 2 / mash } });
+        }
+      c["hist"] = { { "src", src }, { "ops", ops }, { "route", mash == 1 ? "clone" : ((idx % 4 == 1 || idx % 4 == 2) ? "ssrb" : "setters") } };
+    }
   return true;
 }
 
